@@ -66,7 +66,19 @@ impl E2Run for Dns {
             let n_names = 1 + sim::choose(8) as usize;
             let mut recs: Vec<(String, [u8; 4])> = vec![];
             for i in 0..n_names {
-                let name = gen_name(i);
+                let mut name = gen_name(i);
+                // names that differ from an earlier one only in the case of their letters are different names
+                if i > 0 && sim::chance(1, 4) {
+                    let base: &String = &recs[sim::choose(i as u64) as usize].0;
+                    let flipped: String = base
+                        .chars()
+                        .map(|c| if c.is_ascii_lowercase() { c.to_ascii_uppercase() } else { c.to_ascii_lowercase() })
+                        .collect();
+                    if flipped != *base && !recs.iter().any(|(n, _)| *n == flipped) {
+                        name = flipped;
+                        sim::count("probe_names_differing_only_in_case");
+                    }
+                }
                 let ip = [10 + sim::choose(200) as u8, sim::choose(256) as u8, sim::choose(256) as u8, 1 + sim::choose(254) as u8];
                 recs.push((name, ip));
             }
@@ -75,20 +87,34 @@ impl E2Run for Dns {
             }
             let n_clients = 1 + sim::choose(6) as usize;
             // scripts: sequential lookups per client, repeats welcome
-            let mut scripts: Vec<Vec<(String, u64)>> = vec![];
+            // a script is a list of rounds; the lookups of a round (distinct names) are in
+            // flight at the same time, rounds follow one another (repeats hit the cache)
+            let mut scripts: Vec<Vec<(Vec<String>, u64)>> = vec![];
             let mut network_lookups = 0u16;
             for _ in 0..n_clients {
-                let k = 1 + sim::choose(8) as usize;
+                let k = 1 + sim::choose(6) as usize;
                 let mut seen: Vec<String> = vec![];
                 let mut s = vec![];
                 for _ in 0..k {
-                    let name = recs[sim::choose(recs.len() as u64) as usize].0.clone();
-                    if !seen.contains(&name) {
-                        seen.push(name.clone());
-                        network_lookups += 1;
+                    let width = if sim::chance(1, 3) { 1 + sim::choose(3) as usize } else { 1 };
+                    let mut round: Vec<String> = vec![];
+                    for _ in 0..width {
+                        let name = recs[sim::choose(recs.len() as u64) as usize].0.clone();
+                        if !round.contains(&name) {
+                            round.push(name);
+                        }
+                    }
+                    for name in &round {
+                        if !seen.contains(name) {
+                            seen.push(name.clone());
+                            network_lookups += 1;
+                        }
+                    }
+                    if round.len() > 1 {
+                        sim::count("probe_overlapping_lookups_on_one_client");
                     }
                     let gap = sim::choose(3) * sim::choose(100);
-                    s.push((name, gap));
+                    s.push((round, gap));
                 }
                 scripts.push(s);
             }
@@ -115,21 +141,32 @@ impl E2Run for Dns {
                 let log = l2.clone();
                 let app = App::<0>::new(c + 1).script(move |ctx: Ctx| async move {
                     let dns = ctx.machine.protocol::<DnsClient>().unwrap();
-                    for (name, gap) in script {
+                    for (round, gap) in script {
                         if gap > 0 {
                             tokio::time::sleep(Duration::from_millis(gap)).await;
                         }
-                        let call_event = sim::next_event();
-                        let r = dns.get_host_by_name(name.clone(), ctx.machine.clone()).await;
-                        let return_event = sim::next_event();
-                        sim::note_trace(9, c as u64, r.is_ok() as u64);
-                        log.lock().unwrap().push(Lookup {
-                            client: c,
-                            name,
-                            call_event,
-                            return_event,
-                            result: r.ok().map(|ip| ip.to_bytes()),
-                        });
+                        let mut pending = vec![];
+                        for name in round {
+                            let dns = dns.clone();
+                            let machine = ctx.machine.clone();
+                            let log = log.clone();
+                            pending.push(elvis_core::verif::tokio::spawn(async move {
+                                let call_event = sim::next_event();
+                                let r = dns.get_host_by_name(name.clone(), machine).await;
+                                let return_event = sim::next_event();
+                                sim::note_trace(9, c as u64, r.is_ok() as u64);
+                                log.lock().unwrap().push(Lookup {
+                                    client: c,
+                                    name,
+                                    call_event,
+                                    return_event,
+                                    result: r.ok().map(|ip| ip.to_bytes()),
+                                });
+                            }));
+                        }
+                        for p in pending {
+                            let _ = p.await;
+                        }
                     }
                     let done = sim::with_state(|s| {
                         let d = s.counters.entry("clients_done".into()).or_insert(0);
